@@ -9,7 +9,6 @@ import (
 
 	clusternet "github.com/WuKongIM/WuKongIM/pkg/cluster/net"
 	kit "github.com/WuKongIM/WuKongIM/pkg/zzverif/c27kit"
-	"github.com/WuKongIM/WuKongIM/pkg/zzverif/ev"
 )
 
 type c27Envelope struct {
@@ -57,12 +56,11 @@ func c27NetCodec(wantVersion, wantKind uint8) *kit.Codec {
 }
 
 func TestVerifC27Net(t *testing.T) {
-	r := ev.Start(t, "C27")
-	defer r.Finish()
-	k := kit.NewRunner(r)
-	var codecs []*kit.Codec
-	for _, w := range [][2]uint8{{1, 1}, {1, 2}, {0, 0}, {255, 255}, {7, 19}, {2, 1}} {
-		codecs = append(codecs, c27NetCodec(w[0], w[1]))
-	}
-	k.Run(codecs)
+	kit.Main(t, "C27", func() []*kit.Codec {
+		var codecs []*kit.Codec
+		for _, w := range [][2]uint8{{1, 1}, {1, 2}, {0, 0}, {255, 255}, {7, 19}, {2, 1}} {
+			codecs = append(codecs, c27NetCodec(w[0], w[1]))
+		}
+		return codecs
+	}, nil)
 }
